@@ -13,6 +13,8 @@ RULE = ("scenarios {1 command; 1 experiment; chain of 2; 2 parallel + dependent 
         "internal error; every virtual process that was running at the injection point has its process group in a killpg(SIGTERM) "
         "call by the end; the index holds no row for a task whose child had not exited 0. non-trivial = injection point reached with "
         "a distinct (function, line, number of live processes); distinct = that triple per scenario"
+        " The first eight scenarios are injected again at two finer granularities: the eval-breaker instructions (RESUME, JUMP_BACKWARD) and "
+        "the instruction after every CALL that ran C code only (Popen, killpg, sqlite commit, os.read have returned)."
         " The planning phase (from the entry of the run command to the first process start) is injected separately with whatever the "
         "process's current SIGINT disposition raises (so a handler that is installed too late shows)."
         " A third family delivers SIGINT / SIGTERM through the process's actual signal disposition while each task is in flight, for "
@@ -71,6 +73,11 @@ def items(tier):
     for i, c in enumerate(scenarios(tier)[:8]):
         for ch in range(NCHUNKS // 3):
             out.append({"case": c, "chunk": ch, "nchunks": NCHUNKS // 3, "scn_index": i, "bound": 0, "granularity": "evalbreaker"})
+    # ... and right after every call that ran C code only (CPython checks for pending signals at the end of such a CALL): the abort
+    # surfaces after Popen / killpg / sqlite commit / os.read have returned and before anything else in the frame runs
+    for i, c in enumerate(scenarios(tier)[:8]):
+        for ch in range(NCHUNKS // 3):
+            out.append({"case": c, "chunk": ch, "nchunks": NCHUNKS // 3, "scn_index": i, "bound": 0, "granularity": "aftercall"})
     # planning phase: every line from the entry of the run command on, the exception being whatever the process's CURRENT SIGINT
     # disposition raises (Conductor's handler must already be installed)
     for i, c in enumerate(scenarios(tier)):
